@@ -90,6 +90,9 @@ func uidFrame(uid uint64, seq byte, sys byte, v1 bool, keyRaw []byte, ts uint64)
 	s := &ref.FrameSpec{Version: 2, Seq: seq, Sys: sys, Comp: 1, MsgID: 5000}
 	lay := uidLayout
 	var val interface{} = &MessageVfUid{Uid: uid, Kind: 1, Pad: [3]uint8{1, 2, 3}}
+	if uid&1 == 0 {
+		val = &MessageVfUid{Uid: uid, Kind: 1} // zero tail: truncated on the wire, zero-extended by the (shared) decoder
+	}
 	if v1 {
 		s.Version = 1
 		s.MsgID = 200
@@ -455,9 +458,13 @@ func (c *consumer) waitOpen(n int, quiet time.Duration) bool {
 func waitFor(cond func() bool, progress func() int64, quiet time.Duration) bool {
 	last := int64(-1 << 62)
 	lastChange := time.Now()
+	hard := time.Now().Add(20*time.Second + 10*quiet) // progress without end (e.g. an open/close storm) is not waited for forever
 	for {
 		if cond() {
 			return true
+		}
+		if time.Now().After(hard) {
+			return false
 		}
 		p := progress()
 		if p != last {
